@@ -26,13 +26,14 @@ type Collector struct {
 	Notes    map[string]int64  `json:"notes"`
 	Excluded map[string]int64  `json:"excluded"`
 	Exhaust  bool              `json:"exhaustive"`
+	Extra    map[string]any    `json:"extra"`
 	maxSamp  int
 }
 
 func New(property string) *Collector {
 	sh, _ := strconv.Atoi(os.Getenv("VERIF_SHARD"))
 	return &Collector{Property: property, Shard: sh, NonTriv: map[uint64]bool{}, Classes: map[string]int64{}, Known: map[string]int64{},
-		KnownMsg: map[string]string{}, Notes: map[string]int64{}, Excluded: map[string]int64{}, maxSamp: 4}
+		KnownMsg: map[string]string{}, Notes: map[string]int64{}, Excluded: map[string]int64{}, Extra: map[string]any{}, maxSamp: 4}
 }
 
 // Case records one generated case. evals is the number of executions it stood for (≥1).
@@ -58,6 +59,12 @@ func (c *Collector) Class(cl string, n int64) {
 func (c *Collector) Note(n string) {
 	c.mu.Lock()
 	c.Notes[n]++
+	c.mu.Unlock()
+}
+
+func (c *Collector) SetExtra(k string, v any) {
+	c.mu.Lock()
+	c.Extra[k] = v
 	c.mu.Unlock()
 }
 
